@@ -1061,6 +1061,61 @@ def rule_forbidden_calls(ctx, R):
 
 
 # ----------------------------------------------------------------------------------
+# C04-R6: no implicit drops of component values
+# ----------------------------------------------------------------------------------
+_WRAPPED = _re.compile(r"(?:std::cell::Ref(?:Mut)?<'_, [^<>]*(?:<[^<>]*>)?[^<>]*>|entity::Entity(?:Direct)?<[^<>]*>|std::marker::PhantomData<[^<>]*(?:<[^<>]*>)?[^<>]*>)")
+
+
+def component_bearing(ty, generics):
+    """does a value of type `ty` (as printed by rustc) own a user component value?  Guards (Ref/RefMut) and handles do not."""
+    t = ty
+    prev = None
+    while prev != t:
+        prev = t
+        t = _WRAPPED.sub("_", t)
+    if "::Components" in t:
+        return True
+    for gname in generics or []:
+        if gname == "A":
+            continue
+        if _re.search(r"(?<![A-Za-z0-9_])%s(?![A-Za-z0-9_])" % _re.escape(gname), t):
+            return True
+    return False
+
+
+def rule_implicit_drops(ctx, R):
+    """C04-R6: inside gecs, compiler-inserted drops of component-bearing places are (a) never reached through a pointer or reference
+    (that is how `*cell = value` shows up: the old value is dropped in place) and (b) only on unwind paths, where they release a by-value
+    argument or a moved-out temporary of the interrupted call.  On normal paths a component value is either stored into a cell or handed
+    back, never dropped by the library."""
+    g = ctx.gecs
+    n = 0
+    for path, fn in sorted(g.fns.items()):
+        gens = fn.d.get("generics") or []
+        for b in fn.blocks:
+            t = b["t"]
+            if t["k"] != "drop" or not t.get("needs_drop", True):
+                continue
+            if not component_bearing(t["ty"], gens):
+                continue
+            n += 1
+            proj = t["p"]["p"]
+            through = any(x == "*" for x in proj)
+            fam = fn.short()
+            if through:
+                R.fail("C04-R6", "%s|through-pointer" % fam, "%s drops a place of type %s reached through a pointer or reference (an assignment through `*p` or an explicit in-place drop outside the dropper): the cell's old value is dropped while the storage still owns it" % (path, t["ty"]), where_of(fn, t["s"]), fn=fn.key)
+            elif not b["cleanup"]:
+                R.fail("C04-R6", "%s|normal-path" % fam, "%s drops a component-bearing value of type %s on a normal path: values moved into a world are stored or handed back, never dropped by the library" % (path, t["ty"]), where_of(fn, t["s"]), fn=fn.key)
+            else:
+                R.ok("C04-R6", "%s|cleanup-local" % fam, "unwind-path drop of a by-value local of type %s" % t["ty"], fn=fn.key)
+    # positive fixture for the classifier
+    fx = [("T", ["T"], True), ("(T0, T1)", ["A", "T0", "T1"], True), ("<A as traits::Archetype>::Components", ["A"], True), ("std::option::Option<D>", ["A", "D"], True),
+          ("std::cell::Ref<'_, archetype::storage::DataPtr<T3>>", ["A", "T3"], False), ("std::vec::Vec<entity::Entity<A>>", ["A"], False)]
+    bad = [f for f in fx if component_bearing(f[0], f[1]) != f[2]]
+    R.check(not bad, "C04-R6", "implicit-drops|fixture", "classifier agrees with the fixture (%d drops of component-bearing places judged)" % n, "classifier disagrees on %s" % bad, None)
+
+
+# ----------------------------------------------------------------------------------
 # C04-R1 / C02-R3: allocation discipline of DataPtr (GlobalAlloc contract + "growth preserves the cells")
 # ----------------------------------------------------------------------------------
 ALLOC_FNS = ("alloc::alloc", "alloc::alloc_zeroed", "alloc::realloc", "alloc::dealloc")
